@@ -314,6 +314,73 @@ def rule_to_uint64(chk):
 
 
 
+
+def rule_enum_values(chk):
+    """Context::end_enum read as a function on model enums (the registries are stand-ins that hold the enumerators'
+    constants): whatever underlying type is chosen, every enumerator keeps the value its constant expression had - an
+    enum whose values do not all fit the chosen type must be refused, not wrapped - and an enum whose values all fit int
+    or all fit uint is accepted."""
+    import interp as I
+    f = chk.facts
+    fn = f.fn("end_enum", "rssl_typer")
+    if not fn:
+        return
+    opt = lambda v: I.Enum("Option", "None") if v is None else I.Enum("Option", "Some", {"0": v})
+
+    def deref(v):
+        return v.get() if isinstance(v, I.Ref) else v
+    C = lambda k, v: I.Enum("Constant", k, {"0": v})
+    sets = {"small": [C("IntLiteral", 1), C("IntLiteral", 2)], "negative": [C("IntLiteral", -1), C("IntLiteral", 5)], "int-bounds": [C("IntLiteral", -2147483648), C("IntLiteral", 2147483647)],
+            "uint-max": [C("IntLiteral", 7), C("IntLiteral", 4294967295)], "typed": [C("Int32", -5), C("UInt32", 9), C("Bool", True)], "typed-uint-high": [C("UInt32", 4000000000)],
+            "empty": [], "negative-and-uint-high": [C("IntLiteral", -1), C("UInt32", 4294967295)], "below-int-min": [C("IntLiteral", -2147483649), C("IntLiteral", 2147483648)],
+            "below-int-min-only": [C("IntLiteral", -2147483649)], "above-uint-max": [C("IntLiteral", 8589934591)], "negative-and-int-max-plus-one": [C("IntLiteral", -1), C("IntLiteral", 2147483648)]}
+    num = lambda c: int(c.fields["0"])
+    for sname, vals in sets.items():
+        for reverse in (False, True):
+            evs = {i: I.Enum("EnumValue", None, {"value": c, "name": "v%d" % i}) for i, c in enumerate(vals)}
+            updated, under = {}, []
+            ext = {"EnumRegistry::get_enum_value": lambda a, evs=evs: evs[deref(a[1]).fields["0"]],
+                   "EnumRegistry::get_enum_definition": lambda a: I.Enum("EnumDefinition", None, {"name": I.Enum("Located", None, {"node": "E", "location": I.Opaque("location")})}),
+                   "EnumRegistry::set_underlying_type_id": lambda a, under=under: under.append(deref(a[3]).variant) or (),
+                   "EnumRegistry::update_underlying_type": lambda a, updated=updated: updated.__setitem__(deref(a[1]).fields["0"], deref(a[2])) or (),
+                   "TypeRegistry::register_type": lambda a: I.Enum("TypeId", None, {"0": 50}), "Context::pop_scope": lambda a: ()}
+            sym = lambda i: [I.Enum("ScopeSymbol", "EnumValueUntyped", {"0": I.Enum("EnumValueId", None, {"0": i})})]
+            es, ps = I.HMap(), I.HMap()
+            for i in range(len(vals)):
+                es.put("v%d" % i, sym(i))
+                ps.put("v%d" % i, sym(i))
+            scopes = [I.Enum("ScopeData", None, {"symbols": ps, "parent_scope": 0, "owning_enum": opt(None)}),
+                      I.Enum("ScopeData", None, {"symbols": es, "parent_scope": 0, "owning_enum": opt(I.Enum("EnumId", None, {"0": 0}))})]
+            ctx = I.Enum("Context", None, {"scopes": scopes, "current_scope": 1, "module": I.Enum("Module", None, {"enum_registry": I.Opaque("enum registry"), "type_registry": I.Opaque("type registry")})})
+            ip = I.Interp(f, max_depth=6, extern=ext)
+            ip.reverse_hash_order = reverse
+            key = "C13.enum/%s" % sname
+            try:
+                r = ip.apply(fn, [ctx])
+            except I.Unknown as e:
+                if "panicking" in str(e):
+                    chk.ob(key, False, "end_enum aborts on an enum with the values %s (%s)" % ([num(c) for c in vals], str(e)[:80]), where(fn))
+                else:
+                    chk.unreadable(key, "Context::end_enum on a model enum", str(e)[:100], where(fn))
+                break
+            accepted = isinstance(r, I.Enum) and r.variant == "Ok"
+            ns = [num(c) for c in vals]
+            fits = all(-2**31 <= v < 2**31 for v in ns + [0]) or all(0 <= v < 2**32 for v in ns + [0])
+            bad = None
+            if accepted:
+                wrong = [(ns[i], updated[i].variant, updated[i].fields["0"]) for i in range(len(vals)) if i not in updated or int(updated[i].fields["0"]) != ns[i]]
+                if wrong:
+                    bad = "an enum with the values %s is accepted with underlying type %s and the enumerator %d becomes %s(%s): its value is no longer the value of its constant expression" % (
+                        ns, "/".join(under) or "?", wrong[0][0], wrong[0][1], wrong[0][2])
+                elif len(under) != 1:
+                    bad = "the underlying type of an accepted enum is set %d times" % len(under)
+            elif fits:
+                bad = "an enum with the values %s (they all fit %s) is refused" % (ns, "int" if all(-2**31 <= v < 2**31 for v in ns) else "uint")
+            if bad or reverse:
+                chk.ob(key, bad is None, bad or ("accepted with every enumerator's value kept" if accepted else "refused: no 32-bit type holds every value"), where(fn), sample={"values": ns, "accepted": accepted})
+                break
+    chk.floor("C13.floor/enum-sets", len(sets), 10, "model enums", where(fn))
+
 def run(chk):
     f = chk.facts
     ev = chk.anchor("C13.anchor/evaluate_operator", f.fn("evaluate_operator", TY), "evaluate_operator")
@@ -332,6 +399,7 @@ def run(chk):
         rule_sites(chk, ecx)
     rule_literal_fold(chk)
     rule_to_uint64(chk)
+    rule_enum_values(chk)
 
 
 def outer_match(fn, adt):
